@@ -160,7 +160,7 @@ class DataPath:
         ESC_CODE = rf"\{REPLACE}"
         is_escaped = False
         for k in list(spec.keys()):
-            if ESC_CODE in k:
+            if isinstance(k, str) and ESC_CODE in k:
                 is_escaped = True
                 spec_val = spec.pop(k)
                 k_new = k.replace(ESC_CODE, REPLACE)
